@@ -5,9 +5,10 @@
     (Exec/DryModel.v: mrrw.Migrate, Pending with the real writer, the loop under
     the dry-run wrappers), the `schema apply` clause about [apply_changes]
     (applyChanges + the SQLite transaction opener). *)
-From Coq Require Import List NArith Bool Arith.
+From Coq Require Import List NArith ZArith Bool Arith.
 From Atlas Require Import Base.Bytes Base.Stutter Exec.ExecModel Exec.ExecProofs Exec.StepProofs Exec.PendingModel Exec.PendingProofs
-  Exec.RunModel Exec.TxModel Exec.TxProofs Exec.RunProofs Exec.CrashProofs Exec.DryModel Exec.DryProofs.
+  Exec.RunModel Exec.TxModel Exec.TxProofs Exec.RunProofs Exec.CrashProofs Exec.DryModel Exec.DryProofs
+  Exec.FkModel Exec.FkProofs Exec.FkRerunProofs.
 Import ListNotations.
 
 Section C13.
@@ -196,6 +197,148 @@ Theorem C13_schema_apply_none :
   end.
 Proof. exact schema_apply_none_lemma. Qed.
 
+
+(** ** The foreign-key check SQLite's transaction opener performs at commit
+    (round 3; Exec/FkModel.v: OpenTx / CommitFunc / violations / violationsDiff /
+    contains of sql/sqlite/driver.go under the loop of `migrate apply` and under
+    `schema apply`). [violations] = what `PRAGMA foreign_key_check` reports, as a
+    function of the effects present: ANY function (engine); [fk] = the connection's
+    foreign_keys pragma. *)
+
+(** The "new violation" predicate over the engine state is decidable (it is the
+    boolean the code computes) and means exactly: some violation reported after
+    was not reported before. *)
+Theorem C13_fk_new_violation :
+  forall v1 v2 : list violation,
+  (negb (is_nil (violationsDiff v1 v2)) = true <-> exists v, In v v2 /\ ~ In v v1) /\
+  (violationsDiff v1 v2 = [] <-> incl v2 v1).
+Proof. exact (fun v1 v2 => conj (new_violation_spec v1 v2) (violationsDiff_nil v1 v2)). Qed.
+
+Section C13fk.
+Variable hash : Type.
+Variable hash_eqb : hash -> hash -> bool.
+Variable HS : bytes -> hash.
+Variable violations : list bytes -> list violation.
+Variable fk : bool.
+
+(** mode all: whatever fails -- a statement, a directive, Pending, or the check at
+    the final commit -- the database and the revision table are exactly as before
+    the command. A mismatch is reported only when foreign keys are on, the whole
+    run executed without error (the run of TxModel.v ends ADone in [wd]) and [wd]
+    holds a violation the initial state does not; success is the run of TxModel.v. *)
+Theorem C13_fk_commit_all :
+  forall n dir (c : db hash) o c',
+  apply_run_fk hash hash_eqb HS violations fk TxAll n dir c = (o, c') ->
+  (o <> FOut ADone -> c' = c) /\
+  (o = FFkMismatch ->
+     fk = true /\
+     exists wd tr, apply_run hash hash_eqb HS TxAll n dir c = (ADone, wd, tr) /\
+       exists v, In v (violations (d_journal wd)) /\ ~ In v (violations (d_journal c))) /\
+  (o = FOut ADone -> exists tr, apply_run hash hash_eqb HS TxAll n dir c = (ADone, c', tr)).
+Proof. exact (apply_run_fk_all_atomic hash hash_eqb HS violations fk). Qed.
+
+(** mode file: when the loop stops for any reason, incl. a refused commit, the
+    committed state is the [boundary] (of C13_fail_file) after k whole files and no
+    transaction is left open; a refused commit means: foreign keys are on, file k
+    executed without error from that state, and its working copy [w1] (statements
+    AND revision rows, all discarded) holds a violation the state left does not. *)
+Theorem C13_fk_commit_file :
+  forall (files : list tfile) (c : db hash),
+  no_directive files ->
+  forall o c' w', apply_loop_fk hash hash_eqb HS violations fk TxFile files c None = (o, c', w') ->
+  w' = None /\
+  exists k, k <= length files /\ c' = boundary hash hash_eqb HS files c k /\
+    (o = FOut ADone -> k = length files) /\
+    (o = FFkMismatch ->
+       fk = true /\
+       exists f t' fs' es w1 tr,
+         nth_error files k = Some f /\
+         execute hash hash_eqb HS (tf_file f) (d_tbl c')
+                 (bad_faults f (stored_applied hash (d_tbl c') (f_version (tf_file f)))) = (ODone, t', fs', es) /\
+         run_in_tx hash es c' c' = (w1, tr) /\
+         exists v, In v (violations (d_journal w1)) /\ ~ In v (violations (d_journal c'))).
+Proof. exact (apply_loop_fk_file hash hash_eqb HS violations fk). Qed.
+
+(** Any mode, directives, count: a run in which no commit is refused is literally
+    the run of TxModel.v (so every theorem above applies to it); a refused commit
+    happens at a file that runs in file mode, after the files before it completed. *)
+Theorem C13_fk_simulation :
+  forall g files (c : db hash) w o c' w',
+  apply_loop_fk hash hash_eqb HS violations fk g files c w = (o, c', w') ->
+  (o = FFkMismatch /\ w' = None /\
+     exists k f wK, nth_error files k = Some f /\ mode_for g f = Some TxFile /\
+       apply_loop_fk hash hash_eqb HS violations fk g (firstn k files) c w = (FOut ADone, c', wK)) \/
+  exists o2 tr, o = FOut o2 /\
+    apply_loop hash hash_eqb HS g files c (option_map o_w w) = (o2, c', option_map o_w w', tr).
+Proof. exact (apply_loop_fk_simulation hash hash_eqb HS violations fk). Qed.
+
+(** With foreign keys off the command is the [apply_run] of the other theorems. *)
+Theorem C13_fk_check_off :
+  fk = false ->
+  forall g n dir (c : db hash),
+  apply_run_fk hash hash_eqb HS violations fk g n dir c =
+  (let '(o, c', _) := apply_run hash hash_eqb HS g n dir c in (FOut o, c')).
+Proof.
+  exact (fun E g n dir c => apply_run_fk_off hash hash_eqb HS violations fk g n dir c
+                              (mismatch_off_fk hash violations fk E)).
+Qed.
+End C13fk.
+
+(** Fix and re-run after a commit refused by the foreign-key check. Setting as in
+    C13_fix_rerun: the directory is [dskip ++ dir] (sorted; [dir] from the last
+    checkpoint on), here without failing statements ([clean]: the only failure is
+    the check), directives accepted by the global mode [g]; [c0] a file boundary
+    with literal rows (e.g. the empty database); `migrate apply [n]` ends with
+    "foreign key mismatch" in ANY mode, for any engine ([violations], [fk]). Then
+    (a) the state left [c1] is again a file boundary [Bd] with literal rows [LK]
+    after k >= k0 files -- nothing of the refused file, no partial revision; and
+    (b) once the check no longer fires ([violations'], [fk']: the data was repaired
+    or foreign keys are off), `migrate apply` from [c1] and the same command from
+    [c0] both succeed and end in literally the same state [final_db]: journal = the
+    plan exactly once, one completed revision per file. *)
+Theorem C13_fk_fix_rerun :
+  forall (hash : Type) (hash_eqb : hash -> hash -> bool) (HS : bytes -> hash),
+  (forall a b, hash_eqb a b = true <-> a = b) ->
+  forall (dskip dir : list tfile),
+  sorted_files (map tf_file dskip ++ map tf_file dir) ->
+  from_last_ckpt (map tf_file dskip ++ map tf_file dir) = map tf_file dir ->
+  forall violations fk g n (c0 : db hash) k0 c1,
+  clean dir -> valid g dir -> Bd hash HS dir c0 k0 -> LK hash dir (d_tbl c0) k0 ->
+  apply_run_fk hash hash_eqb HS violations fk g n (dskip ++ dir) c0 = (FFkMismatch, c1) ->
+  (exists k, k0 <= k /\ Bd hash HS dir c1 k /\ LK hash dir (d_tbl c1) k) /\
+  forall violations' fk', (forall t, commit_mismatch hash violations' fk' t = false) ->
+  exists o2 o3,
+    apply_run_fk hash hash_eqb HS violations' fk' g 0 (dskip ++ dir) c1 = (FOut o2, final_db hash dir) /\
+    (o2 = ADone \/ o2 = APend PNoPending) /\
+    apply_run_fk hash hash_eqb HS violations' fk' g 0 (dskip ++ dir) c0 = (FOut o3, final_db hash dir) /\
+    (o3 = ADone \/ o3 = APend PNoPending).
+Proof.
+  exact (fun hash hash_eqb HS Hspec dskip dir Hs Hf violations fk g n c0 k0 c1 Hcl Hval HB HL H =>
+    conj (fk_mismatch_resume hash hash_eqb HS Hspec dskip dir Hs Hf violations fk g n c0 k0 c1 Hcl Hval HB HL H)
+         (fk_fix_rerun_lemma hash hash_eqb HS Hspec dskip dir Hs Hf violations fk g n c0 k0 c1 Hcl Hval HB HL H)).
+Qed.
+
+(** `schema apply` with the check computed from the engine state
+    ([apply_changes_fk]: viol = violationsDiff (violations before) (violations after
+    the whole plan) is not empty): in any transactional mode whatever fails, at any
+    position, incl. the check at commit, the committed effects and the pragma are
+    as before; it succeeds iff no statement fails and (foreign keys are off or every
+    violation reported after the plan was reported before it); "foreign key
+    mismatch" iff foreign keys are on, every statement executed, and the plan's
+    effects hold a violation that was not there. *)
+Theorem C13_schema_apply_fk_atomic :
+  forall violations txmode stmts bad (d : sdb) o d' es,
+  txmode <> TxNone ->
+  apply_changes_fk violations txmode stmts bad d = (o, d', es) ->
+  (o <> SOk -> d' = d) /\
+  (o = SOk -> d' = mkSdb (s_effects d ++ stmts) (s_fk d)) /\
+  (o = SOk <-> (forall b, bad = Some b -> length stmts <= b) /\
+               (s_fk d = false \/ incl (violations (s_effects d ++ stmts)) (violations (s_effects d)))) /\
+  (o = SFkMismatch -> s_fk d = true /\ (forall b, bad = Some b -> length stmts <= b) /\
+       exists v, In v (violations (s_effects d ++ stmts)) /\ ~ In v (violations (s_effects d))) /\
+  (forall k, o = SApplyErr k -> bad = Some k /\ k < length stmts).
+Proof. exact schema_apply_fk_lemma. Qed.
+
 Print Assumptions C13_fail_all.
 Print Assumptions C13_fail_file.
 Print Assumptions C13_fail_none.
@@ -207,6 +350,13 @@ Print Assumptions C13_dry_run_refuted_creates_table.
 Print Assumptions C13_dry_run_refuted_writes_baseline.
 Print Assumptions C13_schema_apply_atomic.
 Print Assumptions C13_schema_apply_none.
+Print Assumptions C13_fk_new_violation.
+Print Assumptions C13_fk_commit_all.
+Print Assumptions C13_fk_commit_file.
+Print Assumptions C13_fk_simulation.
+Print Assumptions C13_fk_check_off.
+Print Assumptions C13_schema_apply_fk_atomic.
+Print Assumptions C13_fk_fix_rerun.
 
 (** Non-vacuity: two files, the second one failing at its second statement. *)
 Definition s (n : N) : bytes := [40%N; n; 41%N].
@@ -264,3 +414,47 @@ Example C13_schema_apply_nonvacuous :
   let '(o3, d3, _) := apply_changes TxFile [s 1; s 2] None true (mkSdb [s 9] true) in
   o3 = SFkMismatch /\ d3 = mkSdb [s 9] true.
 Proof. vm_compute. repeat split; reflexivity. Qed.
+
+(** Non-vacuity of the commit-time check: the database already holds a violating
+    row (child row 1); the fourth statement (file 2) adds another violating row. *)
+Definition ex_pre : violation := mkViol [99%N] 1 [112%N] 1.
+Definition ex_new : violation := mkViol [99%N] 2 [112%N] 1.
+Definition ex_violations (j : list bytes) : list violation :=
+  ex_pre :: (if existsb (bytes_eqb (s 4)) j then [ex_new] else []).
+Definition ex_dir_ok : list tfile := fixed ex_dir.
+
+Example C13_fk_nonvacuous :
+  apply_run_fk bytes bytes_eqb (fun b => b) ex_violations true TxAll 0 ex_dir_ok ex_db0 = (FFkMismatch, ex_db0) /\
+  (let '(o, c') := apply_run_fk bytes bytes_eqb (fun b => b) ex_violations true TxFile 0 ex_dir_ok ex_db0 in
+   o = FFkMismatch /\ d_journal c' = [s 1; s 2] /\ length (d_tbl c') = 1) /\
+  (let '(o, c') := apply_run_fk bytes bytes_eqb (fun b => b) ex_violations false TxFile 0 ex_dir_ok ex_db0 in
+   o = FOut ADone /\ d_journal c' = [s 1; s 2; s 3; s 4]) /\
+  (* the pre-existing violation alone is not a new one *)
+  (let '(o, c') := apply_run_fk bytes bytes_eqb (fun b => b) (fun _ => [ex_pre]) true TxAll 0 ex_dir_ok ex_db0 in
+   o = FOut ADone /\ d_journal c' = [s 1; s 2; s 3; s 4]) /\
+  (let '(o, d', _) := apply_changes_fk ex_violations TxFile [s 3; s 4] None (mkSdb [s 1] true) in
+   o = SFkMismatch /\ d' = mkSdb [s 1] true).
+Proof. vm_compute. repeat split; reflexivity. Qed.
+
+(** Fix and re-run after a refused commit, non-vacuity: file mode, the second file is
+    refused; with the data repaired (no new violation reported) the re-run from the
+    state left completes and ends in the state of a run that was never refused. *)
+Example C13_fk_fix_rerun_nonvacuous :
+  forallb (fun g =>
+    let '(o, c1) := apply_run_fk bytes bytes_eqb (fun b => b) ex_violations true g 0 ex_dir_ok ex_db0 in
+    let '(o2, c2) := apply_run_fk bytes bytes_eqb (fun b => b) (fun _ => [ex_pre]) true g 0 ex_dir_ok c1 in
+    match o, o2 with
+    | FFkMismatch, FOut ADone =>
+        bytes_eqb (concat (d_journal c2)) (concat [s 1; s 2; s 3; s 4]) && (length (d_journal c2) =? 4) &&
+        forallb (fun r => (r_applied r =? r_total r) && negb (r_err r)) (d_tbl c2) && (length (d_tbl c2) =? 2)
+    | _, _ => false
+    end) [TxFile; TxAll] = true /\
+  clean ex_dir_ok /\ valid TxFile ex_dir_ok /\ valid TxAll ex_dir_ok /\
+  Bd bytes (fun b => b) ex_dir_ok ex_db0 0 /\ LK bytes ex_dir_ok (d_tbl ex_db0) 0.
+Proof.
+  split; [vm_compute; reflexivity|].
+  split; [intros f [<-|[<-|[]]]; reflexivity|].
+  split; [intros f [<-|[<-|[]]]; discriminate|].
+  split; [intros f [<-|[<-|[]]]; discriminate|].
+  split; [apply Bd_empty|apply LK_empty].
+Qed.
